@@ -264,7 +264,10 @@ def heapMatch (m r : Heap) (n : Nat) (changed : List Nat) (seeds : List (Nat × 
     match gm[x]?, gr[x]? with
     | some a, some b => a.children.zip b.children
     | _, _ => [])
-  let pairs := pairUp gm gr n (4 * (gm.length + gr.length) + 8) seeds' [] ++ (List.range n).map (fun i => (i, i))
-  sameOld m r n changed && simCheck gm gr pairs
+  let newPairs := pairUp gm gr n (4 * (gm.length + gr.length) + 8) seeds' []
+  let pairs := newPairs ++ (List.range n).map (fun i => (i, i))
+  -- what the model allocates is allocated by the real call too: new elements correspond to NEW, distinct elements
+  sameOld m r n changed && newPairs.all (fun (p : Nat × Nat) => decide (n ≤ p.2)) && decide ((newPairs.map (fun (p : Nat × Nat) => p.2)).Nodup) &&
+  simCheck gm gr pairs
 
 end PP.Heap
